@@ -38,7 +38,19 @@ pub fn run(cfg: &RunCfg, agg: &Mutex<Agg>) {
         primitive_case(&mut Rng::new(cs), out);
     });
     run_cases(agg, cfg, "codec-trace", crate::count(cfg, 1500, 30_000), |cs, out| {
-        codec_case(&mut Rng::new(cs), out);
+        codec_case(&mut Rng::new(cs), out, false);
+    });
+    // working sets of 64 MiB and more (long shards x many shards): where an
+    // engine would switch strategy for memory-bound work. Few cases, each
+    // under all four reported subsets.
+    let n = if cfg.thorough { 24 } else { 5 };
+    run_cases(agg, cfg, "huge-working-set-trace", n, |cs, out| {
+        let mut rng = Rng::new(cs);
+        if rng.chance(1, 5) {
+            codec_case(&mut rng, out, true);
+        } else {
+            primitive_case_with(&mut rng, out, true);
+        }
     });
 }
 
@@ -148,11 +160,27 @@ fn judge_against_reference(out: &mut CaseOut, mask: usize, d: [[u64; 4]; 3], ref
 }
 
 fn primitive_case(rng: &mut Rng, out: &mut CaseOut) {
-    let prim = rng.below(4);
+    primitive_case_with(rng, out, false);
+}
+
+fn primitive_case_with(rng: &mut Rng, out: &mut CaseOut, huge: bool) {
+    let prim = if huge { rng.below(2) } else { rng.below(4) };
     // the same call under all four reported subsets
     let tp = gen_transform(rng, 9);
     let mut tp = tp;
     tp.inverse = prim == 1;
+    if huge {
+        // size x blocks x 64 bytes between 64 and 160 MiB
+        let n = *rng.pick(&[1u32, 2, 5, 10, 14]);
+        tp.size = 1 << n;
+        let target = (64usize << 20) + rng.below(96 << 20);
+        tp.shard_len_64 = target.div_ceil(64 * tp.size) + rng.below(2);
+        tp.pos = 0;
+        tp.shard_count = tp.size;
+        tp.truncated = if rng.chance(1, 2) { tp.size } else { rng.range(1, tp.size) };
+        tp.skew_delta = if rng.chance(1, 2) { 0 } else { tp.size * rng.below(65536 / tp.size) };
+        out.tag(format!("huge-transform:log2={n}"));
+    }
     let t_input = gen_transform_input(rng, &tp);
     let blocks = rng.range(1, 6);
     let mut m_input = vec![[0u8; 64]; blocks];
@@ -242,14 +270,19 @@ fn primitive_case(rng: &mut Rng, out: &mut CaseOut) {
     out.sample = Some(jobj(&[("primitive", jstr(PRIMS[prim])), ("masks", jstr("{avx2,ssse3} {ssse3} {avx2} {}"))]));
 }
 
-fn codec_case(rng: &mut Rng, out: &mut CaseOut) {
+fn codec_case(rng: &mut Rng, out: &mut CaseOut, huge: bool) {
     let class = match rng.below(10) {
         0..=4 => Class::Tiny,
         5..=7 => Class::Small,
         _ => Class::Edge,
     };
-    let (k, r) = gen::config(rng, class, crate::codec::RateKind::Default);
-    let size = gen::shard_size(rng, k, r);
+    let (mut k, mut r) = gen::config(rng, class, crate::codec::RateKind::Default);
+    let mut size = gen::shard_size(rng, k, r);
+    if huge {
+        // one transform of the round covers 64 MiB or more
+        (k, r, size) = *rng.pick(&[(2usize, 2usize, 32usize << 20), (3, 1, (16 << 20) + 64), (1, 3, (20 << 20) + 2), (40, 24, 1 << 20)]);
+        out.tag("huge-codec-round");
+    }
     let originals = gen::originals(rng, k, size);
     // lose at least one original so that decode does real work
     let (oi, ri) = loop {
